@@ -46,6 +46,16 @@ CHECKS["C11"] = dict(
    note="Trusted: Coq kernel+vm_compute; hand transcription of the numbering schemes; python parsers emulate Dart/Kotlin/nanobind semantics "
         "(no toolchains to execute them); gcc/g++/node/rustc as executors.",
    design="§5 C11")
+CHECKS["C13"] = dict(
+   text="Proof: Cfg/Model.v transcribes satisfies_cfg (short-circuiting any/all, auto tracking), Attrs::from_ast (disable / rename / errors) and the "
+        "inheritance rules; C13_sat_sound (evaluator = propositional meaning, any depth), C13_false_cfg_is_noop (non-interference for any payload, "
+        "position and parent), C13_disable_iff, C13_method_present, C13_rename_effective. The backend truth tables (attr_support of all seven backends, "
+        "supports= names, extra backend names) are regenerated from /repo's source into gen/Tables.v on every run. Tied to behaviour by ~240 canary "
+        "items per run through the real CLI for every backend with/without the attributes (presence, rendered names, byte identity where the condition "
+        "is false, nm of the macro-built library), one kernel-checked goal per (canary, backend), plus a malformed-formula stream.",
+   note="Trusted: Coq kernel+vm_compute; hand transcription in Cfg/Model.v; gen/tablegen.py translator (cross-checked by the supports= canaries); "
+        "python presence/name parsers; demo_gen observed at method level only; rename observed in cpp/js/dart/nanobind.",
+   design="§5 C13")
 NOT_YET = {
 }
 ALL = [f"C{i:02d}" for i in range(1, 18)]
